@@ -469,6 +469,9 @@ func ruleE1Cow(c *Ctx) []Ob {
 	for _, b := range get.Blocks {
 		for _, ins := range b.Instrs {
 			if st, ok := ins.(*ssa.Store); ok {
+				if k, _ := storeRoot(st.Addr); k == "local" {
+					continue // copy of an item into a local
+				}
 				s.bad("Get:store", c.InstrPos(st), "Get writes memory")
 			}
 		}
